@@ -227,6 +227,9 @@ def random_units(r, rtu_mode):
     toks = []
     hints = []
     for u in ids:
+        if r.chance(1, 12):
+            toks.append(f"{u}:D")        # a handler that overrides none of the provided trait methods
+            continue
         items = []
         for table in range(4):
             for _ in range(r.pick([0, 1, 1, 2])):
@@ -370,6 +373,11 @@ def gen_srv(r, n, tier, rtu_mode=False, with_auth=None):
                 for pdu in eight:
                     for unit in (1, 9):
                         yield f"srv t d000 {pol}.r{role} {units_fixed} {hx(mbap(7, unit, pdu))}"
+    if with_auth is None:
+        # a handler relying on the provided methods of `RequestHandler` (exception 01 for everything)
+        for pdu in eight:
+            yield f"srv {fr} d000 - 1:D;2:s0.0.10.1,s2.0.10.2 {hx(frame(1, 1, pdu))},{hx(frame(2, 2, pdu))}"
+            yield f"srv {fr} d000 - 1:D {hx(frame(1, 1, pdu))}"
     if with_auth is None and not rtu_mode:
         # every exception code a handler can return (ExceptionCode <-> u8 in both directions)
         for code in range(256):
@@ -930,6 +938,11 @@ def gen_tls(r, n, tier):
                 cases.append(f"tls cli {mn} ca {vers} {c} {name}")
             for c, e in cli_ss:
                 cases.append(f"tls cli {mn} ss {vers} {c} - {e}")
+            # the deprecated constructor `TlsClientConfig::new` and a DNS host name
+            for c, name in (("srv_ok", "test.com"), ("srv_wrongname", "test.com"), ("srv_ip", "127.0.0.1")):
+                cases.append(f"tls cli {mn} cad {vers} {c} {name}")
+            for c, e in (("ss_b", "ss_b"), ("ss_impostor", "ss_b")):
+                cases.append(f"tls cli {mn} ssd {vers} {c} - {e}")
     if tier == "thorough":
         for c in cases:
             yield c
@@ -944,9 +957,55 @@ def gen_tls(r, n, tier):
     for c in cases:
         tok = c.split(" ")
         if tok[2] == "12" and ((tok[1] == "srv" and tok[5] == "both") or (tok[1] == "cli" and tok[4] == "both")):
-            special = "+" in c or (tok[1] == "cli" and (tok[6][0].isdigit() or ":" in tok[6]))
+            special = "+" in c or (tok[1] == "cli" and (tok[6][0].isdigit() or ":" in tok[6])) or tok[3] in ("cad", "ssd")
             if r.chance(1, 2) or special:
                 yield c
+
+
+def gen_pty_srv(r, n, tier):
+    """the production RTU server task on a pseudo-terminal: whole-session scripts taken from the RTU
+    server generator (no commands, lowest decode level); expected value = the model of the in-memory
+    session (tools/pty_xlate.py)"""
+    cands = []
+    for line in gen_srv(r, 4 * n, tier, True, False):
+        tok = line.split(" ")
+        if tok[3] != "-" or "!" in tok[5] or tok[5] == "-":
+            continue
+        steps = tok[5].split(",")
+        if len(steps) > 12 or sum(len(x) for x in steps) > 1200:
+            continue
+        cands.append(f"pty srv {tok[4]} {tok[5]}")
+    # each case costs real time: a random sample of the exhaustive prefaces and of the sessions
+    for _ in range(min(n, len(cands))):
+        yield cands.pop(r.below(len(cands)))
+
+
+def gen_pty_cli(r, n, tier):
+    """the production RTU client task on a pseudo-terminal: one to three requests, each answered by
+    the genuine reply, an exception, a perturbed reply, or not at all"""
+    for _ in range(n):
+        steps = []
+        if r.chance(1, 8):
+            steps.append(r.pick(["B19200.8.E.1.N", "B115200.8.N.2.N", "B1200.8.O.1.N"]))
+        for j in range(r.rng(1, 3)):
+            kind, unit, args, d = cl_request(r, valid=r.chance(5, 6))
+            while kind in ("wC", "wR"):
+                kind, unit, args, d = cl_request(r, valid=True)
+            answered = r.chance(4, 5)
+            steps.append(f"q{kind}.{unit}.{1000 if answered else 100}.{args}")
+            if not answered:
+                steps.append("a-")
+                continue
+            pdu = reply_variant(r, d) if r.chance(1, 3) else good_reply(r, d)
+            if not rtu_response_delimitable(pdu):
+                pdu = good_reply(r, d)
+            f = rtu(unit, pdu)
+            if r.chance(1, 5) and len(f) > 3:
+                kcut = r.rng(1, len(f) - 1)
+                steps += [f"a{hx(f[:kcut])}", "~20", f"a{hx(f[kcut:])}"]
+            else:
+                steps.append(f"a{hx(f)}")
+        yield f"pty cli {','.join(steps)}"
 
 
 def gen_role(r, n, tier):
@@ -1572,6 +1631,8 @@ SUITES = {
     "srv_rtu": lambda r, n, tier: gen_srv(r, n, tier, True),
     "srv_auth": lambda r, n, tier: gen_srv(r, n, tier, False, True),
     "role": gen_role,
+    "pty_srv": gen_pty_srv,
+    "pty_cli": gen_pty_cli,
 }
 
 
